@@ -53,7 +53,10 @@ Strata == Tams \X LateLocks
 CaseSpace == UNION {CasesOf(x[1], x[2]) : x \in Strata}
 
 MutSeq == MutSeq1 \o (IF MultiMut THEN MutSeqN ELSE <<>>)
-Prog(c) == SendProg(c) \o (IF c.tam = "none" THEN ProbeProg(MutSeq, Forks) ELSE <<>>)
+\* an altered reply is expected to be refused; should it be accepted, what the sender then exports
+\* is mined and verified once (mine / verify are skipped after a refusal)
+ShortProbe == <<I("mine", "", "", FALSE), I("export", "", "", TRUE), I("verify", "none", "w3", FALSE)>>
+Prog(c) == SendProg(c) \o (IF c.tam = "none" THEN ProbeProg(MutSeq, Forks) ELSE ShortProbe)
 
 \* --------------------------------------------------------------- behaviour
 Init == /\ \E c \in CaseSpace : ms = Start(c)
@@ -106,11 +109,11 @@ Inv_VerifyIff ==
   (ms.last.op = "verify" /\ ms.last.res # "skip") =>
      (ms.last.res = "ok" <=> ProofValid(ms.last.proof, ms.last.proof.exc \in ms.chain))
 
-\* the honest path is live: nothing but a wrong account, a wrong signer or a missing lock stops it
-Clean(c) == /\ c.req = SignerAddr(c) /\ SrcEff(c) = c.actF /\ KindOf(c) # "none"
+\* the honest path is live: nothing but a wrong signer or a missing lock stops it
+Clean(c) == c.req = SignerAddr(c) /\ KindOf(c) # "none"
 HonestCase(c) == c.tam = "none" /\ Clean(c)
 Inv_Honest ==
-  HonestCase(ms.c) =>
+  (Dev = {} /\ HonestCase(ms.c)) =>
      /\ (ms.last.op = "finalize" => ms.last.res = "ok")
      /\ (ms.last.op = "export" => ms.last.res = "ok")
      /\ (ms.last.op = "verify" /\ ms.last.proof = ms.exp => (ms.last.res = "ok" <=> "final" \in ms.chain))
